@@ -111,16 +111,66 @@ def clean_events(ctx, E, entries):
     return evs
 
 
-def hit_bearing(fn, sl, clean_calls):
-    """calls in the slice that can contribute hits (by destination type), except empties / clean events"""
+_CONSTRUCTS = {}
+
+
+def constructs_hits(F, path, depth=4):
+    """does local function `path` (transitively through local callees and its closures) build SearchHit values?"""
+    if path in _CONSTRUCTS:
+        return _CONSTRUCTS[path]
+    _CONSTRUCTS[path] = False   # cycle guard
+    fn = F.fns.get(path)
+    res = False
+    if fn is not None:
+        bodies = [fn] + F.closures_of(fn)
+        for b in bodies:
+            for bb, idx, s in b.stmts():
+                rv = s['rv']
+                if rv['k'] == 'agg' and rv.get('ak') == 'adt' and rv['adt'] == 'SearchHit':
+                    res = True
+                    break
+            if res:
+                break
+        if not res and depth > 0:
+            for b in bodies:
+                for c in b.calls():
+                    if c.local_callee and constructs_hits(F, c.local_callee, depth - 1):
+                        res = True
+                        break
+                if res:
+                    break
+    _CONSTRUCTS[path] = res
+    return res
+
+
+def hit_bearing(fn, sl, clean_calls, F=None):
+    """*sources* of hits in the slice: calls to local functions that (transitively) construct SearchHit values and
+    return a hit-bearing type. Library calls on hit lists (iter/map/collect/deref…) only derive from their inputs,
+    whose own sources are in the slice as well."""
     out = []
     for c in sl.calls:
-        if c in clean_calls:
+        if c in clean_calls or c.is_(ACL_APPLY) or c.is_(EMPTY_PRODUCERS):
             continue
-        d = c.dest
-        ty = fn.local_ty(d.l)
-        if any(h in ty for h in HIT_TYPES) and not c.is_(EMPTY_PRODUCERS) and not c.is_(ACL_APPLY):
+        ty = fn.local_ty(c.dest.l)
+        if not any(h in ty for h in HIT_TYPES):
+            continue
+        lc = c.local_callee
+        if lc is None:
+            continue
+        if F is None or constructs_hits(F, lc):
             out.append(c)
+    return out
+
+
+def hit_constructions(fn, F):
+    """blocks of `fn` in which a SearchHit is built directly (or a closure building one is created)"""
+    out = []
+    for bb, idx, s in fn.stmts():
+        rv = s['rv']
+        if rv['k'] == 'agg' and rv.get('ak') == 'adt' and rv['adt'] == 'SearchHit':
+            out.append((bb, s.get('l'), 'SearchHit{…}'))
+        elif rv['k'] == 'agg' and rv.get('ak') == 'closure' and constructs_hits(F, rv['def']):
+            out.append((bb, s.get('l'), 'closure building SearchHit'))
     return out
 
 
@@ -161,22 +211,35 @@ def check_entry(ctx, key, E, entries, F):
         else:
             ops = lib.rv_operands(ex['rv'])
         sl = lib.slice_back(fn, ops)
-        hb = hit_bearing(fn, sl, clean_calls)
+        hb = hit_bearing(fn, sl, clean_calls, F)
+        direct = hit_constructions(fn, F) if 'SearchHit::SearchHit' in sl.aggs or sl.closures else []
         roots_in = any(r in sl.locals for e in evs for r in e['roots'])
-        if not hb and not roots_in:
+        if not hb and not roots_in and not direct:
             ctx.ok('MPT-C12b', fn, 'Ok exit carries no hits (only empty producers)', line=ex['line'])
             continue
         n_hit_exits += 1
-        ev = None
-        for e in evs:
-            if lib.call_success_dominates(fn, e['call'], ex['bb']) and any(r in sl.locals for r in e['roots']):
-                ev = e
-                break
-        if ev is None:
+        cands = [e for e in evs if lib.call_success_dominates(fn, e['call'], ex['bb']) and any(r in sl.locals for r in e['roots'])]
+        if not cands:
             ctx.bad('MPT-C12b', fn, 'an Ok exit that can carry hits (%s) is not dominated by ACL filtering of the returned hit list' % (
                 ', '.join(sorted({c.key for c in hb})) or 'filtered list'), line=ex['line'], detail='exit-not-dominated-by-acl')
+            continue
+        # every source of hits must lie before (not be reachable after) some dominating clean event
+        late = []
+        for hbb, hname in [(h.bb, h.key) for h in hb] + [(b, w) for b, l, w in direct]:
+            covered = False
+            for e in cands:
+                sb, _ = fn.success_block(e['call'])
+                if sb is not None and hbb not in fn.reachable(sb):
+                    covered = True
+                    break
+            if not covered:
+                late.append(hname)
+        if late:
+            ctx.bad('MPT-C12b', fn, 'hits from %s can enter the returned list after the last ACL filtering that dominates this exit' % (
+                ', '.join(sorted(set(late)))), line=ex['line'], detail='hits-after-acl:' + ','.join(sorted(set(late))))
         else:
-            ctx.ok('MPT-C12b', fn, 'Ok exit dominated by %s at line %s' % (ev['kind'], ev['call'].line), line=ex['line'])
+            ev = cands[0]
+            ctx.ok('MPT-C12b', fn, 'Ok exit dominated by %s at line %s; every hit source precedes it' % (ev['kind'], ev['call'].line), line=ex['line'])
     if n_hit_exits == 0:
         ctx.lost('MPT-C12b', '%s: no Ok exit carries hits' % key)
     # R3: producers of derived output
@@ -202,7 +265,7 @@ def check_entry(ctx, key, E, entries, F):
             ctx.evaluations += 1
             if cl is None:
                 site_bb = bbk
-                if not hit_bearing(fn, sl, clean_calls) and not any(r in sl.locals for e in evs for r in e['roots']):
+                if not hit_bearing(fn, sl, clean_calls, F) and 'SearchHit::SearchHit' not in sl.aggs and not any(r in sl.locals for e in evs for r in e['roots']):
                     ctx.ok('MPT-C12b', fn, '%s sees no hits' % what, line=line)
                     continue
             else:
